@@ -114,7 +114,33 @@ QPivotInvalid == {
     \cup {Q(<<T(cK, "kk"), T(cS, "ss"), T(cV, "vv")>>, NoE, <<>>, NoE, <<>>, <<RefIdx(1), RefIdx(2)>>, FALSE, -1)}
 
 \* C05: invalid statements of every rule (and a few valid neighbours)
-QInvalid == {
+\* C05, the aggregate rules under every node kind: a boolean expression holding an aggregate below each operator /
+\* connective / function / membership / match form, placed at every site where the rules decide (WHERE, a grouping
+\* key, the operand of another aggregate, next to a bare column, HAVING, ORDER BY of an aggregate and of a plain query)
+AggI == Agg("sum", cV)
+AggS == Agg("min", cS)
+One == Const(IntV(1))
+WrapBool == {Bin(op, AggI, One) : op \in {"eq", "ne", "lt", "le", "gt", "ge"}}
+            \cup {Bin(op, Bin(ar, AggI, One), One) : op \in {"gt"}, ar \in {"add", "sub", "mul", "div", "mod"}}
+            \cup {Bin("gt", Un("neg", AggI), One), Un("isnull", AggI), Un("isnotnull", AggS), Un("not", Bin("gt", AggI, One)),
+                  Between(AggI, Const(IntV(0)), Const(IntV(5))), Between(One, AggI, Const(IntV(5))), Between(One, One, AggI),
+                  Bin("in", AggI, Const(ListV(<<IntV(1), IntV(2)>>))), Bin("notin", AggS, Const(ListV(<<StrV("a")>>))),
+                  Bin("match", AggS, Const(StrV("a"))), Bin("notmatch", AggS, Const(StrV("a"))), Bin("match", Const(StrV("ab")), AggS),
+                  AndE(<<Const(BoolV(TRUE)), Bin("gt", AggI, One)>>), OrE(<<Bin("gt", AggI, One), Const(BoolV(FALSE))>>),
+                  Bin("gt", Call("coalesce", <<AggI, One>>), One), Bin("eq", Call("upper", <<AggS>>), Const(StrV("A"))),
+                  Bin("gt", Call("abs", <<AggI>>), One), Bin("eq", Call("str", <<AggI>>), Const(StrV("1")))}
+QAggSites == UNION {{
+    Q(<<T(cK, "")>>, w, <<>>, NoE, <<>>, <<>>, FALSE, -1),                                                \* in WHERE: rejected
+    Q(<<T(Agg("count", Star), "c")>>, NoE, <<RefE(w)>>, NoE, <<>>, <<>>, FALSE, -1),                      \* as a grouping key: rejected
+    Q(<<T(Agg("count", w), "c")>>, NoE, <<>>, NoE, <<>>, <<>>, FALSE, -1),                                \* aggregate of an aggregate: rejected
+    Q(<<T(AndE(<<w, Un("isnull", cK)>>), "x")>>, NoE, <<>>, NoE, <<>>, <<>>, FALSE, -1),                  \* mixed with a bare column: rejected
+    Q(<<T(cK, "")>>, NoE, <<>>, NoE, <<O(RefE(w), FALSE)>>, <<>>, FALSE, -1),                            \* ORDER BY of a plain query: rejected
+    Q(<<T(w, "x")>>, NoE, <<>>, NoE, <<>>, <<>>, FALSE, -1),                                              \* a target: one row
+    Q(<<T(cK, ""), T(Agg("count", Star), "c")>>, NoE, <<RefE(cK)>>, w, <<>>, <<>>, FALSE, -1),            \* HAVING: accepted
+    Q(<<T(cK, ""), T(Agg("count", Star), "c")>>, NoE, <<RefE(cK)>>, NoE, <<O(RefE(w), TRUE)>>, <<>>, FALSE, -1)   \* ORDER BY of an aggregate query
+  } : w \in WrapBool}
+
+QInvalid == QAggSites \cup {
     Q(<<T(Bin("add", cS, cV), "x")>>, NoE, <<>>, NoE, <<>>, <<>>, FALSE, -1),
     Q(<<T(Col("nope"), "")>>, NoE, <<>>, NoE, <<>>, <<>>, FALSE, -1),
     Q(<<T(Call("nofn", <<cV>>), "x")>>, NoE, <<>>, NoE, <<>>, <<>>, FALSE, -1),
